@@ -31,7 +31,7 @@ CHECKS = {
          "all level layouts reachable within the stated depth by flushes, Compact begin and Compact apply (flushes landing in between) under fourteen compactor settings; contents (Get/ScanPrefix) equal the reference after every step, sorted levels disjoint, no newer version beneath an older one, compaction reaches a fixed point from every state; on a real dkv.DB the creation of the n-th table file is held back so that a flush lands inside a compaction step",
          "depth-bounded; three keys, seven flush images, at most three level-0 tables; sequence numbers rank-normalised in the state key", "DESIGN.md §5 C18"),
  "C08": ("fault_enumeration", "bounded exhaustive history enumeration on the real dkv.DB x every crash point (snapshot of the file set after every mutating storage operation), restore of every retained handle on every snapshot vs the map captured at the Checkpoint call",
-         "every history up to depth 5-6 over put/delete/Checkpoint/retention update/restore (same or new directory)/hold+release of background work; after every storage operation following the return of a handle, a fresh dkv.Open on a copy of the files must reproduce the captured map, not panic and accept new writes; background work optionally held from the start, or a warm-up of two flushed entries before the history; every history ends with a quiescent final checkpoint probed the same way",
+         "every history up to depth 5-6 over put/delete/Checkpoint/retention update/restore (same or new directory)/hold+release of background work; after every storage operation following the return of a handle, a fresh dkv.Open on a copy of the files must reproduce the captured map, not panic and accept new writes; a schedule part calls Checkpoint while flushes are in flight under the cooperative scheduler (every schedule within 1-2 delays); background work optionally held from the start, or a warm-up of two flushed entries before the history; every history ends with a quiescent final checkpoint probed the same way",
          "no torn writes (a completed storage operation is durable, an incomplete one invisible); GC-driven deletions are C09's subject; flush/compaction interleavings inside the quiescence wait are left to the Go scheduler in this tier", "DESIGN.md §5 C08"),
  "C09": ("exploration", "bounded exhaustive history enumeration on real dkv.DB instances with garbage collection as an explicit enumerated action (runtime.GC + cleanup barrier), file-existence oracle over retained checkpoint documents plus reads of the live level set",
          "single database: every history up to depth 5-6 over write burst / Checkpoint / retention update / reopen in the same process (old object dropped or kept, same or new directory) / forced GC; neighbours: rescale 1->N with the real OperatorPartition policy, simulated operator processes (own file names), every combination of neighbour answers (truthful / error / hang) and every order of bursts, job checkpoints (also ones that never complete job-wide), retention notifications and GC up to depth 4-6, with focused parts for an operator redeployed twice in one process and for a pending job checkpoint; the ownership guard ExclusivelyOwnsTable itself under the cooperative scheduler with 1-3 neighbours x six behaviours x every interleaving within 3-6 delays",
@@ -55,7 +55,7 @@ CHECKS = {
          "all job states reachable within 5-7 events over register / deregister / heartbeat / clock jump / checkpoint tick / acknowledgement / failing Deploy / slow deployments (Deploy calls stay in flight until released), WorkerCount 1 and 2 (the latter from an assembled cluster) with one standby node of each kind: calls only reach registered live nodes, deploys name exactly WorkerCount nodes, no call reaches an assembly after the job noticed a lost member, redeploys carry the latest completed checkpoint; from every state 'register all, tick, acknowledge' completes a checkpoint with a larger id",
          "scripted nodes (real workers: cluster parts, being added); a node counts as lost once it deregistered or its heartbeat had expired when the job evaluated its registry", "DESIGN.md §5 C15"),
  "C16": ("exploration", "delay-bounded exhaustive schedule exploration of a real SourceRunner (reported split positions vs the barrier cut) + exhaustive enumeration of splitter configurations and kinesis shard histories against the real splitters",
-         "source runner: as C04 with a barrier racing the reads: reported positions put every record emitted before the barrier below and every later record at or above them; embedded/httpapi splitters for every split count <=5 x runner count <=4; real kinesis SourceSplitter against the repository's kinesis fake (in-process transport, discovery ticker on virtual time): the real kinesis SourceReader of a runner owning both shards of a stream: every history up to depth 6-8 over put into a shard / ReadEvents / checkpoint + a new reader resuming from it: each emitted record is the next of its shard in the reader's lineage; splitter: every history up to depth 6-7 over split / merge / discovery tick / reader finishes shard / checkpoint+restore, then readers finish every closed shard until nothing changes (every shard handed out): a shard handed out once per incarnation, never before its parents finished, with its checkpointed cursor, restore neither panics nor forgets",
+         "source runner: as C04 with a barrier racing the reads: reported positions put every record emitted before the barrier below and every later record at or above them; embedded/httpapi splitters for every split count <=5 x runner count <=4; the embedded reader's value sequences, checkpoint cursors and resume from them; real kinesis SourceSplitter against the repository's kinesis fake (in-process transport, discovery ticker on virtual time): the real kinesis SourceReader of a runner owning both shards of a stream: every history up to depth 6-8 over put into a shard / ReadEvents / checkpoint + a new reader resuming from it: each emitted record is the next of its shard in the reader's lineage; splitter: every history up to depth 6-7 over split / merge / discovery tick / reader finishes shard / checkpoint+restore, then readers finish every closed shard until nothing changes (every shard handed out): a shard handed out once per incarnation, never before its parents finished, with its checkpointed cursor, restore neither panics nor forgets",
          "records without keyed events are invisible to the cut oracle; kinesis shard expiry not modelled", "DESIGN.md §5 C16"),
  "C17": ("exploration", "bounded exhaustive input/history enumeration on the real SST and WAL code vs reference lists",
          "every run of 0..50 entries from a 56-key universe (binary, empty, prefix-related keys; tombstone masks exhaustive up to 8 entries), whole and split at every target size, every lookup key / prefix, descriptor JSON round trip; every WAL history over put/delete/cut/truncate/rotate+save up to depth 6-7 with every legal start marker",
